@@ -1,1 +1,191 @@
-/- C17 — property theorems (to be written) -/
+/-
+  C17 — buffer traffic models charge exactly what their policy implies.
+  Property theorems only; helper lemmas live in FtProofs/Lemmas/Traffic*.lean.
+-/
+import FtProofs.Lemmas.TrafficBasic
+import FtProofs.Lemmas.TrafficTools
+set_option linter.unusedSectionVars false
+set_option linter.unusedSimpArgs false
+set_option linter.unusedVariables false
+namespace Ft
+namespace Traffic
+
+/-! ## trace combination is a stable merge by iteration stamp -/
+
+/-- `_combineTraces` on stamp-sorted files: nothing lost, nothing invented, each file's rows in
+    their own order, a write never precedes a read with an equal-or-smaller stamp and a read never
+    precedes a write with a strictly smaller stamp (reads first on ties). -/
+theorem combine_stable_merge (reads writes : List Row)
+    (hr : StampSorted reads) (hw : StampSorted writes) :
+    combineSpecB reads writes (combine reads writes) = true := by
+  simp only [combineSpecB, Bool.and_eq_true, decide_eq_true_eq]
+  exact ⟨⟨⟨combine_reads reads writes, combine_writes reads writes⟩,
+    combine_tiesReadFirst reads writes hr⟩, combine_readsNotOvertaken reads writes hw⟩
+
+/-- … and these conditions determine the merge: any list passing the executable check is the
+    model's output (so "spec on the implementation's file" and "file = model" are one test). -/
+theorem combine_complete (reads writes : List Row) (out : List CRow)
+    (h : combineSpecB reads writes out = true) : out = combine reads writes := by
+  induction out generalizing reads writes with
+  | nil =>
+    simp only [combineSpecB, Bool.and_eq_true, decide_eq_true_eq] at h
+    obtain ⟨⟨⟨h1, h2⟩, _⟩, _⟩ := h
+    simp at h1 h2; subst h1; subst h2; simp [combine]
+  | cons x out ih =>
+    simp only [combineSpecB, Bool.and_eq_true, decide_eq_true_eq] at h
+    obtain ⟨⟨⟨h1, h2⟩, h3⟩, h4⟩ := h
+    simp only [tiesReadFirst, readsNotOvertaken, Bool.and_eq_true, Bool.or_eq_true,
+      Bool.not_eq_true', List.all_eq_true] at h3 h4
+    have ih' : ∀ rs ws, (out.filter (fun r => !r.isWrite)).map CRow.untag = rs →
+        (out.filter (fun r => r.isWrite)).map CRow.untag = ws → out = combine rs ws := by
+      intro rs ws e1 e2
+      apply ih
+      simp only [combineSpecB, Bool.and_eq_true, decide_eq_true_eq]
+      exact ⟨⟨⟨e1, e2⟩, h3.2⟩, h4.2⟩
+    cases hx : x.isWrite
+    · -- the head is a read: it is the first read
+      simp only [List.filter_cons, hx, Bool.not_false, if_true, List.map_cons, Bool.false_eq_true,
+        if_false] at h1 h2
+      cases reads with
+      | nil => cases h1
+      | cons r rs =>
+        simp only [List.cons.injEq] at h1
+        have hrest := ih' rs writes h1.2 h2
+        have hxr : x = r.tag false := eq_tag_of_untag h1.1 hx
+        cases writes with
+        | nil =>
+          rw [combine, hrest, hxr]
+          cases rs <;> simp [combine]
+        | cons w ws =>
+          rw [combine]
+          have hnot : lexLt w.stamp r.stamp = false := by
+            -- w occurs later in `out` as a write; a read is never overtaken
+            have hw_mem : w.tag true ∈ out := mem_of_proj_write h2 List.mem_cons_self
+            rcases h4.1 with hxw | hall
+            · rw [hx] at hxw; cases hxw
+            · have := hall _ hw_mem
+              rcases this with hc | hc
+              · simp at hc
+              · simp only [lexLe, Bool.not_eq_true', tag_stamp] at hc
+                rw [hxr] at hc; exact hc
+          simp [hnot, hrest, hxr]
+    · -- the head is a write: it is the first write and strictly precedes the first read
+      simp only [List.filter_cons, hx, Bool.not_true, Bool.false_eq_true, if_false, if_true,
+        List.map_cons] at h1 h2
+      cases writes with
+      | nil => cases h2
+      | cons w ws =>
+        simp only [List.cons.injEq] at h2
+        have hrest := ih' reads ws h1 h2.2
+        have hxw : x = w.tag true := eq_tag_of_untag h2.1 hx
+        cases reads with
+        | nil => rw [combine]; simp [hrest, hxw, combine]
+        | cons r rs =>
+          rw [combine]
+          have hlt : lexLt w.stamp r.stamp = true := by
+            have hr_mem : r.tag false ∈ out := mem_of_proj_read h1 List.mem_cons_self
+            rcases h3.1 with hxf | hall
+            · rw [hx] at hxf; cases hxf
+            · have := hall _ hr_mem
+              rcases this with hc | hc
+              · simp at hc
+              · rw [hxw] at hc; exact hc
+          simp [hlt, hrest, hxw]
+
+example : combine [⟨[0], [1], 1⟩, ⟨[2], [0], 0⟩] [⟨[0], [5], 5⟩, ⟨[1], [6], 6⟩] =
+    [⟨[0], [1], 1, false⟩, ⟨[0], [5], 5, true⟩, ⟨[1], [6], 6, true⟩, ⟨[2], [0], 0, false⟩] := by
+  simp [combine, lexLt, Row.tag]
+
+/-! ## trace filtering keeps exactly the rows whose point occurs in the filter trace -/
+
+/-- `filterTrace` on an input whose points are strictly increasing and a filter whose (cut) points
+    are non-decreasing — both in Python tuple order — keeps exactly the matching rows. -/
+theorem filter_spec (n : Nat) (inp fil : List Row)
+    (hlen : ∀ x ∈ inp, x.coords.length = n)
+    (hin : inp.Pairwise (fun a b => lexLt a.coords b.coords = true))
+    (hfil : fil.Pairwise (fun a b => lexLe (a.coords.take n) (b.coords.take n) = true)) :
+    filterTrace inp fil = filterSpec inp fil := by
+  fun_induction filterTrace inp fil with
+  | case1 fil => simp [filterSpec]
+  | case2 i is => simp [filterSpec]
+  | case3 i is f fs heq ih =>
+    have hi := hlen i List.mem_cons_self
+    have hlen' : ∀ x ∈ is, x.coords.length = n := fun x hx => hlen x (List.mem_cons_of_mem _ hx)
+    rw [ih hlen' (List.pairwise_cons.1 hin).2 (List.pairwise_cons.1 hfil).2]
+    have hkeep : (f :: fs).any (fun g => decide (g.coords.take i.coords.length = i.coords)) = true := by
+      simp only [List.any_cons, Bool.or_eq_true, decide_eq_true_eq]; left; exact heq.symm
+    simp only [filterSpec, List.filter_cons, hkeep, if_true]
+    congr 1
+    apply List.filter_congr
+    intro x hx
+    have hxl := hlen' x hx
+    have hlt := (List.pairwise_cons.1 hin).1 x hx
+    have : ¬ (f.coords.take x.coords.length = x.coords) := by
+      intro e
+      have : i.coords = x.coords := by
+        rw [← e, hxl, ← hi]; exact heq
+      exact lexLt_ne hlt this
+    simp [this]
+  | case4 i is f fs hne hlt ih =>
+    have hi := hlen i List.mem_cons_self
+    have hlen' : ∀ x ∈ is, x.coords.length = n := fun x hx => hlen x (List.mem_cons_of_mem _ hx)
+    rw [ih hlen' (List.pairwise_cons.1 hin).2 hfil]
+    have hdrop : (f :: fs).any (fun g => decide (g.coords.take i.coords.length = i.coords)) = false := by
+      rw [List.any_eq_false]
+      intro g hg
+      simp only [decide_eq_true_eq]
+      intro e
+      have hfg : lexLe (f.coords.take n) (g.coords.take n) = true := by
+        rcases List.mem_cons.1 hg with rfl | hg
+        · exact lexLe_refl _
+        · exact (List.pairwise_cons.1 hfil).1 g hg
+      have h1 : lexLt i.coords (g.coords.take n) = true := by
+        apply lexLt_of_lt_of_le _ hfg
+        rw [← hi]; exact hlt
+      rw [← hi, e, lexLt_irrefl] at h1; cases h1
+    simp only [filterSpec, List.filter_cons, hdrop, Bool.false_eq_true, if_false]
+  | case5 i is f fs hne hnlt ih =>
+    have hi := hlen i List.mem_cons_self
+    rw [ih hlen hin (List.pairwise_cons.1 hfil).2]
+    simp only [filterSpec]
+    apply List.filter_congr
+    intro x hx
+    have hxl := hlen x hx
+    -- f's point is strictly below every remaining input point
+    have hgt : lexLt (f.coords.take n) i.coords = true := by
+      cases h : lexLt (f.coords.take n) i.coords
+      · exfalso
+        have h2 : lexLt i.coords (f.coords.take n) = false := by
+          have := hnlt; simp only [Bool.not_eq_true] at this
+          rw [← hi]; exact this
+        have := lexLt_total h h2
+        apply hne; rw [hi]; exact this.symm
+      · rfl
+    have hfx : lexLt (f.coords.take n) x.coords = true := by
+      rcases List.mem_cons.1 hx with rfl | hx'
+      · exact hgt
+      · exact lexLt_trans hgt ((List.pairwise_cons.1 hin).1 x hx')
+    have : ¬ (f.coords.take x.coords.length = x.coords) := by
+      intro e; rw [hxl] at e; rw [e, lexLt_irrefl] at hfx; cases hfx
+    simp [this]
+
+example : filterTrace [⟨[0], [1], 0⟩, ⟨[1], [3], 1⟩, ⟨[2], [4], 2⟩]
+    [⟨[0, 0], [1, 7], 0⟩, ⟨[0, 1], [1, 9], 1⟩, ⟨[1, 0], [2, 0], 0⟩, ⟨[2, 0], [4, 4], 0⟩] =
+    [⟨[0], [1], 0⟩, ⟨[2], [4], 2⟩] := by simp [filterTrace, lexLt]
+
+/-! ## next use -/
+
+/-- `_buildNextUseTrace`: every row is paired with the first later row on the same line. -/
+theorem nextuse_correct (mask : List Bool) (epl : Nat) (rows : List CRow) :
+    nextUse mask epl rows = nextUseSpec mask epl rows := by
+  unfold nextUse
+  induction rows with
+  | nil => rfl
+  | cons r rest ih =>
+    simp only [nextUseAux, nextUseSpec, nextUseAux_dict, ih]
+
+example : (nextUse [true] 2 [⟨[0], [0], 0, false⟩, ⟨[1], [5], 5, true⟩, ⟨[2], [1], 1, false⟩]).map
+    (fun x => x.2.map (·.stamp)) = [some [2], none, none] := by decide
+
+end Traffic
+end Ft
